@@ -24,6 +24,8 @@ type Clause struct {
 type Split struct {
 	Var    string
 	Lo, Hi int
+	HiVar  string // upper bound is an earlier split variable (+ HiOff); Hi is then the absolute maximum
+	HiOff  int
 }
 
 type Contract struct {
@@ -107,8 +109,20 @@ func parseSplit(rest string) (Split, error) {
 	}
 	lo, e1 := strconv.Atoi(r[0])
 	hi, e2 := strconv.Atoi(r[1])
-	if e1 != nil || e2 != nil {
+	if e1 != nil {
 		return Split{}, fmt.Errorf("split: bad range %q", f[1])
+	}
+	if e2 != nil {
+		// lo..var or lo..var-k : dependent upper bound
+		hv, off := r[1], 0
+		if i := strings.LastIndex(hv, "-"); i > 0 {
+			k, err := strconv.Atoi(hv[i+1:])
+			if err == nil {
+				off = -k
+				hv = hv[:i]
+			}
+		}
+		return Split{Var: f[0], Lo: lo, Hi: 1 << 30, HiVar: hv, HiOff: off}, nil
 	}
 	return Split{Var: f[0], Lo: lo, Hi: hi}, nil
 }
@@ -243,6 +257,29 @@ func (cs *ContractSet) parseFile(path, pkgDir string) error {
 			cur = nil
 			lem = &Lemma{Name: rest, PkgDir: pkgDir, File: path, Line: rl.line}
 			cs.Lemmas = append(cs.Lemmas, lem)
+		case "definerec":
+			// definerec name(a, b) = expr : a recursive integer spec function (emitted as define-fun-rec)
+			eq := strings.Index(rest, "=")
+			if eq < 0 {
+				return fail("definerec without =")
+			}
+			head, body := strings.TrimSpace(rest[:eq]), strings.TrimSpace(rest[eq+1:])
+			d := &SpecDef{Rec: true}
+			i := strings.Index(head, "(")
+			if i < 0 {
+				return fail("definerec needs parameters")
+			}
+			d.Name = strings.TrimSpace(head[:i])
+			for _, p := range strings.Split(strings.TrimSuffix(strings.TrimSpace(head[i+1:]), ")"), ",") {
+				d.Params = append(d.Params, strings.TrimSpace(p))
+				d.Sorts = append(d.Sorts, "int")
+			}
+			e, err := ParseExpr(body)
+			if err != nil {
+				return fail("%v", err)
+			}
+			d.Body = e
+			cs.Defs[d.Name] = d
 		case "define":
 			// define name(a, b:str) = expr
 			eq := strings.Index(rest, "=")
